@@ -312,6 +312,85 @@ theorem parse_build (url : Bytes) (m : Meta) (hu : NoQuote url) (hv : validate m
     (sepParams_seps url m) ?_ hu hv
   rw [sepParams_map]
 
+/-! ### Configuration histories -/
+
+/-- The configuration a single call installs, if it is accepted. -/
+def accepted (c : Option Bytes × Meta) : Option Config :=
+  match validate c.2, c.1 with
+  | none, some u => some { url := u, md := c.2 }
+  | _, _ => none
+
+/-- The last accepted call of a history. -/
+def lastAccepted : List (Option Bytes × Meta) → Option Config
+  | [] => none
+  | c :: r =>
+    match lastAccepted r with
+    | some x => some x
+    | none => accepted c
+
+theorem foldl_setMeta : ∀ (calls : List (Option Bytes × Meta)) (st : Option Config),
+    calls.foldl (fun st c => setMeta st c.1 c.2) st =
+      match lastAccepted calls with
+      | some x => some x
+      | none => st
+  | [], st => rfl
+  | c :: r, st => by
+    simp only [List.foldl_cons, lastAccepted]
+    rw [foldl_setMeta r]
+    cases lastAccepted r with
+    | some x => rfl
+    | none =>
+      simp only [setMeta, accepted]
+      cases validate c.2 with
+      | some e => rfl
+      | none => cases c.1 <;> rfl
+
+/-- **config_last** — after any history of `SetOAuthResourceMetadata` calls the server holds
+exactly what the LAST accepted call configured (refused calls change nothing). -/
+theorem config_last (calls : List (Option Bytes × Meta)) : configure calls = lastAccepted calls := by
+  unfold configure
+  rw [foldl_setMeta]
+  cases lastAccepted calls <;> rfl
+
+theorem lastAccepted_valid : ∀ (calls : List (Option Bytes × Meta)) (c : Config),
+    lastAccepted calls = some c → validate c.md = none
+  | [], c, h => by simp [lastAccepted] at h
+  | x :: r, c, h => by
+    simp only [lastAccepted] at h
+    cases hr : lastAccepted r with
+    | some y =>
+      rw [hr] at h
+      simp only [Option.some.injEq] at h
+      subst h
+      exact lastAccepted_valid r y hr
+    | none =>
+      rw [hr] at h
+      simp only [accepted] at h
+      cases hv : validate x.2 with
+      | some e => simp [hv] at h
+      | none =>
+        cases hu : x.1 with
+        | none => simp [hv, hu] at h
+        | some u =>
+          simp only [hv, hu, Option.some.injEq] at h
+          subst h
+          exact hv
+
+/-- **history_recovers** — whatever sequence of configurations the server went through (rotated
+or dropped credentials under the same resource, another resource, refused values in between), a
+client parsing the challenge of a 401 recovers exactly the LAST accepted metadata. -/
+theorem history_recovers (calls : List (Option Bytes × Meta)) (c : Config)
+    (hl : lastAccepted calls = some c) (hu : NoQuote c.url) :
+    ∃ h, challenge (configure calls) = some h ∧ Recovers h c.url c.md := by
+  refine ⟨build c.url c.md, ?_, parse_build c.url c.md hu (lastAccepted_valid calls c hl)⟩
+  rw [config_last, hl]
+  rfl
+
+/-- A history without an accepted call sets no challenge. -/
+theorem history_none (calls : List (Option Bytes × Meta)) (hl : lastAccepted calls = none) :
+    challenge (configure calls) = none := by
+  rw [config_last, hl]; rfl
+
 /-! ### Non-vacuity -/
 
 /-- "https://h/a" -/
@@ -344,5 +423,11 @@ example : parseResourceMetadataURL (build [104, dq, 105] exMeta) = [104] := by d
 
 /-- `validate` rejects a quote in a field (so the hypothesis is not vacuous either way). -/
 example : validate { exMeta with clientId := [97, dq] } = some .clientId := by decide
+
+/-- rotation under the same resource, then a refused call: the challenge advertises the rotated
+values (seeded change C28-e). -/
+example : configure [(some exUrl, exMeta2), (some exUrl, exMeta), (some exUrl, { exMeta with clientId := [97, dq] })]
+    = some { url := exUrl, md := exMeta } ∧
+    configure [(none, exMeta), (some exUrl, { exMeta with resource := [] })] = none := by decide
 
 end Vgi.Props.C28
